@@ -1,7 +1,7 @@
 (* C12 — correspondence cases, the model's observation for each case, and the judge (the property's executable statement
    evaluated on the IMPLEMENTATION's observation).  Every observation field is a [result bytes] (texts are their character
    codes, booleans are [1]/[0]).  The primitives [P] are instantiated in the driver by tables of calls to the real crates. *)
-From CSL Require Import Base.Prelude Base.Hex Cbor.Head Crypto.Iface Crypto.Wrappers Crypto.Emip3.
+From CSL Require Import Base.Prelude Base.Hex Cbor.Head Crypto.Iface Crypto.Wrappers Crypto.Emip3 Crypto.WitnessCbor.
 Local Open Scope N_scope.
 
 Inductive verdict := Holds | FailsKnown (n : N) | FailsUnknown | NA.
@@ -107,21 +107,21 @@ Definition obs_wit (wk : N) (hash key : bytes) (dp : option bytes) (magic : opti
     match sk_from_bytes_tk wk key with
     | Ok k => if sk_usable k then
                 let w := make_vkey_witness P hash k in
-                [Ok (vw_vkey w); Ok (vw_sig w); ob (pk_verify P (vw_vkey w) hash (vw_sig w))]
+                [Ok (vw_vkey w); Ok (vw_sig w); ob (pk_verify P (vw_vkey w) hash (vw_sig w)); Ok (vkeywitness_to_bytes w)]
               else [Panic]
     | _ => [Err]
     end
   else if wk =? 2 then
     match xprv_from_bytes key with
     | Ok k => let w := make_icarus_bootstrap_witness P hash attrs k in
-              [Ok (bw_vkey w); Ok (bw_sig w); ob (pk_verify P (bw_vkey w) hash (bw_sig w)); Ok (bw_cc w); Ok (bw_attrs w)]
+              [Ok (bw_vkey w); Ok (bw_sig w); ob (pk_verify P (bw_vkey w) hash (bw_sig w)); Ok (bw_cc w); Ok (bw_attrs w); Ok (bootstrapwitness_to_bytes w)]
     | _ => [Err]
     end
   else
     match kt_from_binary T_legacy key with
     | Ok k => if ext_scalar_ok (firstn 64 k) then
                 match make_daedalus_bootstrap_witness P hash attrs k with
-                | Ok w => [Ok (bw_vkey w); Ok (bw_sig w); ob (pk_verify P (bw_vkey w) hash (bw_sig w)); Ok (bw_cc w); Ok (bw_attrs w)]
+                | Ok w => [Ok (bw_vkey w); Ok (bw_sig w); ob (pk_verify P (bw_vkey w) hash (bw_sig w)); Ok (bw_cc w); Ok (bw_attrs w); Ok (bootstrapwitness_to_bytes w)]
                 | Err => [Err] | Panic => [Panic] | OutOfFuel => [OutOfFuel]
                 end
               else [Panic]
@@ -255,10 +255,13 @@ Definition stmt (c : case) (io : obs) : bool :=
   | CWit wk h k dp mg, Ok vk :: Ok sg :: v :: rest =>
       res_eqb v (ob true) &&
       (if wk <=? 1 then
-         match sk_from_bytes_tk wk k with Ok sk => list_eqb sg (sk_sign P sk h) && list_eqb vk (sk_to_public P sk) | _ => false end
+         match sk_from_bytes_tk wk k with Ok sk => list_eqb sg (sk_sign P sk h) && list_eqb vk (sk_to_public P sk) | _ => false end &&
+         (* the serialized witness is the CBOR array [vkey, signature] of exactly these two values *)
+         obs_eqb rest [Ok (vkeywitness_to_bytes {| vw_vkey := vk; vw_sig := sg |})]
        else
          list_eqb sg (ed_sign_ext P (firstn 64 k) h) && list_eqb vk (ed_ext_pub P (firstn 64 k)) &&
-         obs_eqb rest [Ok (skipn 64 k); Ok (byron_attributes dp mg)])
+         obs_eqb rest [Ok (skipn 64 k); Ok (byron_attributes dp mg);
+                       Ok (bootstrapwitness_to_bytes {| bw_vkey := vk; bw_sig := sg; bw_cc := skipn 64 k; bw_attrs := byron_attributes dp mg |})])
   | CWit _ _ _ _ _, [Err] => true
   (* derivation: public derivation along a soft path agrees with private derivation; a hardened index is refused;
      derived keys keep round-tripping; raw public key and chain code agree on both routes *)
